@@ -146,7 +146,7 @@ func init() {
 			"in source order or shuffled; for mutable kinds the invalid features arrive as AddFeature calls inside an edit history); distinct = kind + features + injections; " +
 			"non-trivial = at least one injected feature was dropped or rejected",
 		Assumptions: []string{"golang/geo Loop.Validate and Loop.Area decide loop validity and orientation", "clockwise closed paths may be inverted by builders (then they must be counter-clockwise in the world)"},
-		Quick:       300, Thorough: 30000,
+		Quick:       300, Thorough: 12000,
 		Batch:    10,
 		CaseCap:  15 * time.Minute,
 		Required: required,
